@@ -131,7 +131,9 @@ class World:
     def construct(self, kind, naming, s):
         from mako.template import ModuleTemplate, Template
         fn = os.path.join(self.src, URIS[s])
-        kw = {"uri": URIS[s]} if naming == "uri" else {}
+        sp = {"": "%s", "1": "/%s", "2": "./%s"}
+        fam = naming.rstrip("12")
+        kw = {"uri": sp[naming[len(fam):]] % URIS[s]} if fam in ("uri", "ruri", "curi") else {}
         self.n += 1
         how = "compiled"
         try:
@@ -141,12 +143,15 @@ class World:
                 t = Template(filename=fn, **kw)
             elif kind == "moddir":
                 before = self._modfiles()
-                t = Template(filename=fn, module_directory=self.md, **kw)
+                if fam == "curi":       # what a lookup with a modulename_callable keyed by the file passes on
+                    t = Template(filename=fn, module_filename=os.path.join(self.md, "by-file", URIS[s] + ".py"), **kw)
+                else:
+                    t = Template(filename=fn, module_directory=os.path.join(self.md, "r") if fam == "ruri" else self.md, **kw)
                 how = "compiled" if self._modfiles() != before else "modfile"      # a module file written or rewritten
-                self.modpath[(s, naming)] = t.module.__file__
+                self.modpath[(s, fam)] = t.module.__file__
             elif kind == "wrap":
                 import importlib.util
-                path = self.modpath[(s, naming)]
+                path = self.modpath[(s, fam)]
                 spec = importlib.util.spec_from_file_location("wrap_%d" % self.n, path)
                 mod = importlib.util.module_from_spec(spec)
                 spec.loader.exec_module(mod)
@@ -240,14 +245,19 @@ def replay(steps, base):
 
 
 MC_CFG = """CONSTANTS Sources = {%s}  MidU <- %s  MidF <- %s  MaxObj = %d  MaxEpoch = %d  AllowCollect = %s  Depth = %d
+CONSTANTS Namings = {%s}
 SPECIFICATION Spec
 CONSTRAINT Bound
 CHECK_DEADLOCK FALSE
 """
 
 
-def mc_cfg(sources, mu, mf, maxobj, maxepoch, collect, depth, invs):
-    return MC_CFG % (", ".join('"%s"' % s for s in sources), mu, mf, maxobj, maxepoch, "TRUE" if collect else "FALSE", depth) + \
+ALL_NAMINGS = ["uri", "uri1", "uri2", "ruri", "ruri1", "ruri2", "curi", "curi1", "curi2", "fn", "anon"]
+
+
+def mc_cfg(sources, mu, mf, maxobj, maxepoch, collect, depth, invs, namings=("uri", "uri1", "fn", "anon")):
+    return MC_CFG % (", ".join('"%s"' % s for s in sources), mu, mf, maxobj, maxepoch, "TRUE" if collect else "FALSE", depth,
+                     ", ".join('"%s"' % n for n in namings)) + \
         "".join("INVARIANT %s\n" % i for i in invs)
 
 
@@ -344,6 +354,11 @@ FRAGS = {
                     "~~envm~~${envm(0)}~~/envm~~|\n", [("envm", {"x": 0})]),
     "env_def_ns": ("<%namespace name=\"ens\" file=\"ns.html\"/><%def name=\"usens(x)\">{${ens.nd(x)}${self.uri == local.uri}${ens.uri.split('/')[-1]}}</%def>"
                    "~~usens~~${usens(0)}~~/usens~~|\n", [("usens", {"x": 0})]),
+    "def_varargs": ("<%def name=\"va(x, *args, **kw)\">[${x}|${len(args)}|${kw.get('nokey')}]</%def>~~va~~${va(0)}~~/va~~${va(1, 2, 3, k=4)}|\n",
+                    [("va", {"x": 0})]),
+    # ---- the URI as requested is part of the output: rendered per URI spelling (keys carry the spelling)
+    "uri_print": ("URI[${self.uri}|${local.uri}|${context.get('parent').uri if context.get('parent') is not None else '-'}]"
+                  "<%def name=\"ud(x)\">(${self.uri}|${local.uri}|${x})</%def>~~ud~~${ud(0)}~~/ud~~|\n", [("ud", {"x": 0})]),
     "multi_filters": ("${t | h, u, trim}${t | u, h}${' <x> ' | trim, h}${' <x> ' | h, trim}|\n", []),
     "texttag": ("<%text>${not} % evaluated <%def></%text>%% lit\n## comment\n<%doc>doc</%doc>|\n", []),
     "capture": ("<%def name=\"cp(x)\">c${x}</%def><% got = capture(cp, a) %>${got.upper()}${capture(cp, x='{NA}')}|\n", []),
@@ -363,7 +378,7 @@ SUPPORT = {
     "nsc.html": "".join("<%%def name=\"%s()\">C.%s </%%def>" % (n, n) for n in ("tri", "lab3")),
 }
 # the page fragment changes what `a` means for the body: kept out of combinations with def-reference segments
-EXCLUSIVE = {"page"}
+EXCLUSIVE = {"page", "uri_print"}
 
 
 def make_corpus(run, n_random):
@@ -383,7 +398,7 @@ def make_corpus(run, n_random):
         comment = "" if encoding == "utf-8" else "## -*- coding: %s -*-\n" % encoding
         defs = [d for t in tags for d in FRAGS[t][1]]
         corpus.append({"id": len(corpus) + 1, "tags": list(tags), "inherit": inherit or "", "encoding": encoding, "text": comment + body,
-                       "refs": bool(inherit or REFS & set(tags)),
+                       "refs": bool(inherit or REFS & set(tags)), "urisens": "uri_print" in tags,
                        "defs": defs, "marker": "TPL%03d" % (len(corpus) + 1)})
     encs = ["utf-8", "cp1251", "latin-1"]
     for i, t in enumerate(sorted(FRAGS)):               # unit templates: one per feature
@@ -392,6 +407,8 @@ def make_corpus(run, n_random):
         add([t], "base.html", "utf-8")
         add([t], "mid.html", encs[len(corpus) % 3])
     add(["text", "def"], "", "cp1251")
+    for extra, inh in (([], "base.html"), ([], "mid.html"), (["include"], ""), (["namespace", "env_def"], ""), (["env_def_inh"], "base.html")):
+        add(["uri_print"] + extra, inh, encs[len(corpus) % 3])
     tags = [t for t in sorted(FRAGS) if t not in EXCLUSIVE]
     for _ in range(n_random):
         k = rng.randint(2, 6)
@@ -441,8 +458,9 @@ def realise(tpl, d, seed, first):
     strctx = {k: str(v) for k, v in CTX.items()}
 
     def modfiles():
-        return {k: v for k, v in _file_digests([d["md"], d["md2"]]).items() if k.endswith("main.html.py")}
+        return {k: v for k, v in _file_digests([d["md"], d["md2"], d["md3"], d["md4"]]).items() if k.endswith("main.html.py")}
     refs = tpl["refs"]
+    urisens = tpl.get("urisens", False)
 
     def construct(kind, naming, make, how=None):
         before = modfiles() if kind == "moddir" else None
@@ -459,33 +477,43 @@ def realise(tpl, d, seed, first):
         ev.append({"ev": "construct", "kind": kind, "naming": naming, "src": "m", "t": len(objs), "how": how or "compiled", "seed": seed})
         return t
 
-    def queries(t, path, lookup=None):
+    def K(key, sp):
+        # when the template prints URIs its meaning depends on the spelling it was requested under
+        return key + "@" + sp if urisens and sp else key
+
+    def queries(t, path, lookup=None, sp=None, light=False):
         n = len(objs)
 
         def rc():
             buf = FastEncodingBuffer()
             t.render_context(Context(buf, **CTX), **CTX)     # what render(**CTX) does: the data also goes to the body's **pageargs
             return buf.getvalue()
+        def rc_file():                                       # a plain file-like object as the context's buffer
+            buf = io.StringIO()
+            t.render_context(Context(buf, **CTX), **CTX)
+            return buf.getvalue()
         body = None
-        for m, f in (("render", lambda: t.render(**CTX)), ("render_unicode", lambda: t.render_unicode(**CTX)), ("render_context", rc)):
+        methods = (("render", lambda: t.render(**CTX)), ("render_unicode", lambda: t.render_unicode(**CTX)), ("render_context", rc),
+                   ("render_context", rc_file))
+        for m, f in (methods[:1] if light else methods):
             r = _try(f)
             if m == "render":
                 body = r
-            ev.append({"ev": "render", "t": n, "m": m, "key": "body|typed", "dig": _d(r), "seed": seed, "path": path})
+            ev.append({"ev": "render", "t": n, "m": m, "key": K("body|typed", sp), "dig": _d(r), "seed": seed, "path": path})
         for name, kw in tpl["defs"]:
             seg = _seg(body, name)
             if not (isinstance(body, str) and body.startswith("exc:")):      # no reference from a body that did not render
-                ev.append({"ev": "render", "t": n, "m": "render", "key": "def:" + name, "dig": _d(seg) if seg is not None else "no-segment",
+                ev.append({"ev": "render", "t": n, "m": "render", "key": K("def:" + name, sp), "dig": _d(seg) if seg is not None else "no-segment",
                            "seed": seed, "path": path})
             args = {k: (CTX[v[4:]] if isinstance(v, str) and v.startswith("CTX:") else v) for k, v in kw.items()}
             data = dict(CTX)
             data.update(args)
             r = _try(lambda: t.get_def(name).render(**data))
-            ev.append({"ev": "render", "t": n, "m": "get_def", "key": "def:" + name, "dig": _d(r), "seed": seed, "path": path})
+            ev.append({"ev": "render", "t": n, "m": "get_def", "key": K("def:" + name, sp), "dig": _d(r), "seed": seed, "path": path})
         if lookup is not None:
             # the template as a PARENT: a fixed child (kid.html) of it rendered through the same lookup
             r = _try(lambda: lookup.get_template("kid.html").render(**CTX))
-            ev.append({"ev": "render", "t": n, "m": "render", "key": "kid|typed", "dig": _d(r), "seed": seed, "path": path})
+            ev.append({"ev": "render", "t": n, "m": "render", "key": K("kid|typed", sp), "dig": _d(r), "seed": seed, "path": path})
         s = _try(lambda: t.source)
         ev.append({"ev": "source", "t": n, "dig": _d(s), "seed": seed, "path": path})
         c = _try(lambda: t.code)
@@ -501,88 +529,124 @@ def realise(tpl, d, seed, first):
             owner, cls = (c if isinstance(c, str) else "type:" + type(c).__name__), "none"
             owner = "KeyError" if owner == "exc:KeyError" else owner
         ev.append({"ev": "code", "t": n, "owner": owner, "cls": cls, "seed": seed, "path": path})
+        if light:
+            return
         names = [x[0] for x in tpl["defs"]]
         dd = _try(lambda: json.dumps([t.list_defs(), [t.has_def(x) for x in names + ["nonexistent_def"]],
                                       [type(t.get_def(x)).__name__ for x in names]]))
         ev.append({"ev": "defs", "t": n, "dig": _d(dd), "seed": seed, "path": path})
 
-    # 1. compiled from a string (with a URI, as TemplateLookup.put_string does; and without)
-    t = construct("string", "uri", lambda: Template(text, uri="main.html", lookup=lk))
-    if t is not None:
-        queries(t, "string/uri")
-        r = _try(lambda: t.render(**strctx))
-        if isinstance(r, str) and r.startswith("exc:"):
-            r = "exc:render-failed"      # mako-render reports any failure the same way
-        ev.append({"ev": "render", "t": len(objs), "m": "render", "key": "body|str", "dig": _d(r), "seed": seed, "path": "string/uri"})
-    t = construct("string", "anon", lambda: Template(text, lookup=lk))
+    SP = {"p": "main.html", "s": "/main.html", "d": "./main.html"}
+    NM = {"p": "", "s": "1", "d": "2"}
+    bare = refs or urisens
+    varargs = sum((["--var", "%s=%s" % (k, v)] for k, v in CTX.items()), [])
+    # 1. compiled from a string (with a URI, as TemplateLookup.put_string does -- under every spelling when the URI is
+    #    part of the output, which gives the reference for that spelling -- and without)
+    for sp in (("p", "s", "d") if urisens else ("p",)):
+        t = construct("string", "uri" + NM[sp], lambda: Template(text, uri=SP[sp], lookup=lk))
+        if t is not None:
+            queries(t, "string/uri", sp=sp, light=sp != "p")
+            if sp == "p":
+                r = _try(lambda: t.render(**strctx))
+                if isinstance(r, str) and r.startswith("exc:"):
+                    r = "exc:render-failed"      # mako-render reports any failure the same way
+                ev.append({"ev": "render", "t": len(objs), "m": "render", "key": K("body|str", "p"), "dig": _d(r), "seed": seed, "path": "string/uri"})
+    t = None if urisens else construct("string", "anon", lambda: Template(text, lookup=lk))
     if t is not None:
         queries(t, "string/anon")
-    # 2. from a file, in memory
-    t = construct("file", "uri", lambda: lk.get_template("main.html"))
-    if t is not None:
-        queries(t, "file/lookup", lk)
+    # 2. from a file, in memory: through a lookup under three spellings of the URI; by file name only
+    for sp in ("p", "s", "d"):
+        t = construct("file", "uri" + NM[sp], lambda: lk.get_template(SP[sp]))
+        if t is not None:
+            queries(t, "file/lookup", lk if sp == "p" else None, sp=sp, light=sp != "p")
     # (a file name as the only identity cannot resolve relative <%include>/<%inherit>/<%namespace>: not generated)
-    t = None if refs else construct("file", "fn", lambda: Template(filename=fn, lookup=lk))
+    t = None if bare else construct("file", "fn", lambda: Template(filename=fn, lookup=lk))
     if t is not None:
         queries(t, "file/fn")
-    # 3./4. module directory: generated by the first process, re-loaded by every later one
-    t = construct("file", "uri", lambda: lk.get_template("/main.html"))      # another spelling of the URI
-    if t is not None:
-        queries(t, "file/lookup-slash")
-    tm = construct("moddir", "uri", lambda: lkm.get_template("main.html"))
-    if tm is not None:
-        queries(tm, "moddir/lookup", lkm)
-    t = None if refs else construct("moddir", "fn", lambda: Template(filename=fn, module_directory=d["md"], lookup=lkm))
+    # 3./4. module files: generated by the first process under one spelling, re-loaded under the others and by every
+    #    later process; in a second module directory the spellings come in the opposite order; a third lookup names
+    #    its module files with a modulename_callable keyed by the file
+    tm = None
+    for sp in ("p", "s", "d"):
+        t = construct("moddir", "uri" + NM[sp], lambda: lkm.get_template(SP[sp]))
+        if t is not None:
+            queries(t, "moddir/lookup", lkm if sp == "p" else None, sp=sp, light=sp != "p")
+            tm = tm or t
+    lkr = TemplateLookup([d["src"]], module_directory=d["md3"])
+    for sp in ("d", "s", "p"):
+        t = construct("moddir", "ruri" + NM[sp], lambda: lkr.get_template(SP[sp]))
+        if t is not None:
+            queries(t, "moddir/lookup-reversed", sp=sp, light=True)
+    lkc = TemplateLookup([d["src"]], modulename_callable=lambda filename, uri: os.path.join(d["md4"], os.path.basename(filename) + ".py"))
+    for sp in ("s", "p"):
+        t = construct("moddir", "curi" + NM[sp], lambda: lkc.get_template(SP[sp]))
+        if t is not None:
+            queries(t, "moddir/modulename_callable", sp=sp, light=True)
+    t = None if bare else construct("moddir", "fn", lambda: Template(filename=fn, module_directory=d["md"], lookup=lkm))
     if t is not None:
         queries(t, "moddir/fn")
-    if (t if not refs else tm) is not None:
-        path = (t if not refs else tm).module.__file__
+    if (t if not bare else tm) is not None:
+        path = (t if not bare else tm).module.__file__
 
-        # 5. ModuleTemplate over the module imported by hand
+        # 5. ModuleTemplate over the module imported by hand (in later processes: a module file written by another process)
         def wrap():
             spec = importlib.util.spec_from_file_location("wrapped_%s" % tpl["marker"], path)
             mod = importlib.util.module_from_spec(spec)
             spec.loader.exec_module(mod)
             return ModuleTemplate(mod, module_filename=path, template_filename=fn, lookup=lkm)
-        t = construct("wrap", "uri" if refs else "fn", wrap, how="modfile")
+        t = construct("wrap", "uri" if bare else "fn", wrap, how="modfile")
         if t is not None:
-            queries(t, "wrap")
-    # 7. the mako-render command: its own Template(filename=...), string-valued variables
-    out = io.StringIO()
+            queries(t, "wrap", sp="p")
+    # 7. the mako-render command: its own Template(filename=...), string-valued variables; also with --template-dir and
+    #    reading the template from standard input
+    if bare:
+        os.chdir(d["src"])      # a bare file name in the working directory (see the aux traces for a path with a directory)
 
-    def run_cmd():
-        # a bare file name in the working directory when the template refers to other files (see aux traces)
-        if refs:
-            os.chdir(d["src"])
-        with contextlib.redirect_stdout(out), contextlib.redirect_stderr(io.StringIO()):
-            cmd.cmdline(["main.html" if refs else fn] + sum((["--var", "%s=%s" % (k, v)] for k, v in CTX.items()), []))
+    def run_cmd(argv, stdin=None):
+        out = io.StringIO()
+        old = sys.stdin
+        if stdin is not None:
+            sys.stdin = io.StringIO(stdin)
+        try:
+            with contextlib.redirect_stdout(out), contextlib.redirect_stderr(io.StringIO()):
+                cmd.cmdline(argv)
+        finally:
+            sys.stdin = old
         return out.getvalue()
-    r = _try(run_cmd)
-    if r == "exc:SystemExit":
-        r = "exc:render-failed"
-    objs.append(None)
-    n = len(objs)
-    ev.append({"ev": "construct", "kind": "file", "naming": "fn", "src": "m", "t": n, "how": "compiled", "seed": seed})
-    ev.append({"ev": "render", "t": n, "m": "cmdline", "key": "body|str", "dig": _d(r), "seed": seed, "path": "cmdline"})
-    ev.append({"ev": "collect", "t": n})
-    aux = []
-    if refs and first:
-        out2 = io.StringIO()
 
-        def run_cmd2():
-            with contextlib.redirect_stdout(out2), contextlib.redirect_stderr(io.StringIO()):
-                cmd.cmdline([fn] + sum((["--var", "%s=%s" % (k, v)] for k, v in CTX.items()), []))
-            return out2.getvalue()
+    def cmd_event(argv, label, kind, naming, stdin=None):
+        r = _try(lambda: run_cmd(argv, stdin))
+        if r == "exc:SystemExit":
+            r = "exc:render-failed"
+        objs.append(None)
+        n = len(objs)
+        ev.append({"ev": "construct", "kind": kind, "naming": naming, "src": "m", "t": n, "how": "compiled", "seed": seed})
+        ev.append({"ev": "render", "t": n, "m": "cmdline", "key": K("body|str", "p"), "dig": _d(r), "seed": seed, "path": label})
+        ev.append({"ev": "collect", "t": n})
+    name = "main.html" if bare else fn
+    cmd_event([name] + varargs, "cmdline", "file", "uri" if bare else "fn")
+    cmd_event([name, "--template-dir", "." if bare else d["src"]] + varargs, "cmdline-template-dir", "file", "uri" if bare else "fn")
+    if not urisens:
+        os.chdir(d["src"])
+        cmd_event(["-"] + varargs, "cmdline-stdin", "string", "anon", stdin=text)
+    aux = []
+    if first:
         t = _try(lambda: Template(text, uri="main.html", lookup=lk))
         if not isinstance(t, str):
             r0 = _try(lambda: t.render(**strctx))
             r0 = "exc:render-failed" if isinstance(r0, str) and r0.startswith("exc:") else r0
-            r2 = _try(run_cmd2)
-            r2 = "exc:render-failed" if r2 == "exc:SystemExit" else r2
-            aux = [{"ev": "construct", "kind": "string", "naming": "uri", "src": "m", "t": 1, "how": "compiled", "seed": seed},
-                   {"ev": "render", "t": 1, "m": "render", "key": "body|str", "dig": _d(r0), "seed": seed, "path": "string/uri"},
-                   {"ev": "construct", "kind": "file", "naming": "fn", "src": "m", "t": 2, "how": "compiled", "seed": seed},
-                   {"ev": "render", "t": 2, "m": "cmdline", "key": "body|str", "dig": _d(r2), "seed": seed, "path": "cmdline-with-directory"}]
+            variants = [("cmdline-output-encoding", [name, "--output-encoding", "utf-8"] + varargs, "uri" if bare else "fn")]
+            if refs:
+                variants.append(("cmdline-with-directory", [fn] + varargs, "fn"))
+            for label, argv, naming in variants:
+                if urisens and naming == "fn":
+                    continue
+                r2 = _try(lambda: run_cmd(argv))
+                r2 = "exc:render-failed" if r2 == "exc:SystemExit" else r2
+                aux.append([{"ev": "construct", "kind": "string", "naming": "uri", "src": "m", "t": 1, "how": "compiled", "seed": seed},
+                            {"ev": "render", "t": 1, "m": "render", "key": "body|str", "dig": _d(r0), "seed": seed, "path": "string/uri"},
+                            {"ev": "construct", "kind": "file", "naming": naming, "src": "m", "t": 2, "how": "compiled", "seed": seed},
+                            {"ev": "render", "t": 2, "m": "cmdline", "key": "body|str", "dig": _d(r2), "seed": seed, "path": label}])
     return ev, len(objs), aux
 
 
@@ -636,6 +700,7 @@ def run_seed(run, corpus, dirs, seed, nproc, first):
 
 
 TRACE_CFG = """CONSTANTS Sources = {"m"}  MidU <- TMidU  MidF <- TMidF  MaxObj = 100000  MaxEpoch = 100000  AllowCollect = TRUE
+CONSTANTS Namings = {"uri", "uri1", "uri2", "ruri", "ruri1", "ruri2", "curi", "curi1", "curi2", "fn", "anon"}
 SPECIFICATION TSpec
 CHECK_DEADLOCK FALSE
 """
@@ -646,7 +711,8 @@ def record_corpus(run, corpus, nproc, seeds):
     dirs = {}
     for tpl in corpus:
         b = os.path.join(root, "t%03d" % tpl["id"])
-        d = {"src": os.path.join(b, "src"), "md": os.path.join(b, "mods"), "md2": os.path.join(b, "mods2")}
+        d = {"src": os.path.join(b, "src"), "md": os.path.join(b, "mods"), "md2": os.path.join(b, "mods2"), "md3": os.path.join(b, "mods3"),
+             "md4": os.path.join(b, "mods4")}
         os.makedirs(d["src"])
         enc = tpl["encoding"]
         with open(os.path.join(d["src"], "main.html"), "wb") as f:
@@ -676,8 +742,8 @@ def record_corpus(run, corpus, nproc, seeds):
                     e["t"] += off
                 tr["events"].append(e)
             counts[tpl["id"]] += r["nobj"]
-            if r.get("aux"):
-                aux.append({"id": AUX + tpl["id"], "textdig": tr["textdig"], "events": r["aux"]})
+            for k, a in enumerate(r.get("aux") or []):
+                aux.append({"id": AUX * (k + 1) + tpl["id"], "textdig": tr["textdig"], "events": a})
     return [traces[t["id"]] for t in corpus] + aux
 
 
@@ -694,6 +760,11 @@ def classify(tpl, trace, v, unit_fail):
         what = "body" if what == "kid" else what          # a whole-template render either way (as parent of kid.html)
         if e.get("path") == "cmdline-with-directory":
             return "mako-render:path-with-directory:relative-file-reference"
+        if tpl.get("urisens") and str(e.get("path", "")).startswith("moddir/"):
+            # a module file (re-)used for a URI spelled differently from the one it was generated for
+            return "trace:PathIndependence:path:moddir-other-spelling:%s:uri_print%s" % (what, "+refs" if tpl["refs"] else "")
+        if e.get("path") == "cmdline-output-encoding":
+            return "mako-render:output-encoding:" + ("fails" if str(e.get("dig", "")).startswith("exc:") else "differs")
         if ref.get("path") == e.get("path") and ref.get("m") != e.get("m"):
             dim = "method:%s-vs-%s" % tuple(sorted([str(ref.get("m")), str(e.get("m"))]))
         elif ref.get("path") == e.get("path") and ref.get("m") == e.get("m"):
@@ -731,8 +802,8 @@ def check(run):
     acts = {}
     for name, srcs, mu, mf, maxobj, maxep, coll, depth in [
             ("mc-distinct", ["s3", "s4"], "MU_distinct", "MF_distinct", 3, 1, False, 5 if not thorough else 7),
-            ("mc-distinct-1src", ["s3"], "MU_distinct", "MF_distinct", 4, 1, False, 7 if not thorough else 9)]:
-        res = run.tlc("MC_Paths", mc_cfg(srcs, mu, mf, maxobj, maxep, coll, depth, ALL_INV), name=name, coverage=True, workers=workers, timeout=1500)
+            ("mc-distinct-1src", ["s3"], "MU_distinct", "MF_distinct", 4, 1, False, 6 if not thorough else 8)]:
+        res = run.tlc("MC_Paths", mc_cfg(srcs, mu, mf, maxobj, maxep, coll, depth, ALL_INV), name=name, coverage=(name == "mc-distinct"), workers=workers, timeout=1500)
         if res.violated:
             run.spec_violation(res)
         for a, (dd, g) in res.coverage.items():
@@ -743,7 +814,7 @@ def check(run):
     run.extra["action_coverage"] = acts
     # with collisions / collection the property invariants that do not go through the registry still hold
     res = run.tlc("MC_Paths", mc_cfg(["s1", "s2", "s3"], "MU_mixed", "MF_mixed", 3, 1, True, 5 if not thorough else 6,
-                                     ["PathIndependence", "DefsAgree", "ModuleFileReused", "RegistryWeak"]), name="mc-mixed", workers=workers, timeout=1500)
+                                     ["PathIndependence", "DefsAgree", "ModuleFileReused", "RegistryWeak"], namings=("uri", "ruri1", "fn", "anon") if not thorough else ("uri", "uri2", "ruri1", "curi", "fn", "anon")), name="mc-mixed", workers=workers, timeout=1500)
     if res.violated:
         run.spec_violation(res)
     model_findings(run)
@@ -751,7 +822,7 @@ def check(run):
     # ------------------------------------------------------------------ 2. R: simulate -> replay on real objects
     nsim = 60 if not thorough else 500
     simdir = run.subdir("sim")
-    cfg = mc_cfg(["s1", "s2", "s3"], "MU_mixed", "MF_mixed", 10, 100000, True, 100000, ["RegistryWeak"]).replace("CONSTRAINT Bound\n", "")
+    cfg = mc_cfg(["s1", "s2", "s3"], "MU_mixed", "MF_mixed", 10, 100000, True, 100000, ["RegistryWeak"], namings=ALL_NAMINGS).replace("CONSTRAINT Bound\n", "")
     run.tlc("MC_Paths", cfg, name="sim", workers=1, simulate="file=%s/tr,num=%d" % (simdir, nsim), depth=24, timeout=900, count=False)
     files = sorted(os.listdir(simdir))
     if len(files) < nsim:
